@@ -30,7 +30,7 @@ EXPLANATION = (
     'makeMove/makeMoveB/makeSEEMove on a position that outlives the call (member or reference parameter; 8 named advancing '
     'functions excepted) every non-exceptional path to the exit or to the next make passes the matching unmake with the same move and undo record.'
     ' (8) the en-passant mask tables hold, for each file, exactly the neighbouring squares on the capturing rank (finite evaluation over the 8 files) and makeMove records an en-passant square only under that mask test; (4, 5 widths) every UndoInfo field and every packed field of the compact form is as wide as the Position attribute it holds unless a stated value range is narrower; (9) every fresh en-passant store is followed by fixupEPSquare (the normal form readFEN produces). Three genuine violations of the property on the pinned tree are recorded as known findings (8-bit clock and 16-bit move number in the compact form; makeMove records an en-passant square whose capture is illegal).'
-    ' Added later; (10) the attribute assignment inside every one-argument setter of Position has exactly the parameter on its right-hand side. (11) makeSEEMove / unMakeSEEMove remove and restore the same en-passant victim for every mover piece. (12) the normaliser TextIO::fixupEPSquare keeps an en-passant square exactly for a legal move of the mover\'s pawn to it (all 12 pieces x 2 destinations), scans legal moves only and clears the square otherwise. (13) each take-back reads the mover\'s colour: the parity of side-to-move flips in the make function, flips before the read in the take-back and negations of the value read is even (makeMove/unMakeMove and makeMoveB/unMakeMoveB). (14) wherever a castling right is withdrawn because the board does not support it (readFEN; a reader of the compact form), the test looks at the king\'s home square and the rook corner of that right.')
+    ' Added later; (10) the attribute assignment inside every one-argument setter of Position has exactly the parameter on its right-hand side. (11) makeSEEMove / unMakeSEEMove remove and restore the same en-passant victim for every mover piece. (12) the normaliser TextIO::fixupEPSquare keeps an en-passant square exactly for a legal move of the mover\'s pawn to it (all 12 pieces x 2 destinations), scans legal moves only and clears the square otherwise. (13) each take-back reads the mover\'s colour: the parity of side-to-move flips in the make function, flips before the read in the take-back and negations of the value read is even (makeMove/unMakeMove and makeMoveB/unMakeMoveB). (14) wherever a castling right is withdrawn because the board does not support it (readFEN; a reader of the compact form), the test looks at the king\'s home square and the rook corner of that right. (15) the square setters clear the old piece\'s bit from a set before they set the new piece\'s bit in it.')
 UNDECIDED = ('equality of hash keys of rule-equal positions as values, bit-identity after arbitrary histories, FEN round trip of '
              'counters (value-level).')
 ASSUMPTIONS = ['material domain: <= 16 men per side, pawns + promoted officers <= 8 per side (the property\'s domain)',
@@ -84,6 +84,7 @@ def run(fb, rep, tier):
     c12_ep_normaliser(fb, rep)
     c13_mover_colour_in_takeback(fb, rep)
     c14_castle_right_sanitisers(fb, rep)
+    c15_clear_before_set(fb, rep)
 
 
 # ----------------------------------------------------------------------------- .1
@@ -1353,3 +1354,31 @@ def c14_castle_right_sanitisers(fb, rep):
                    in_place and rook_gone and king_gone, R.site(f, e),
                    'unreachable with king and rook in place: %s; reachable without the rook: %s; without the king: %s' % (in_place, rook_gone, king_gone), f.sname)
     rep.floor(clause, 'board-dependent withdrawals of a castling right', n, 4)
+
+
+# ----------------------------------------------------------------------------- .15
+
+def c15_clear_before_set(fb, rep):
+    """K2 order of the two halves of a square update.  setPiece / setPieceB replace the piece on a square: the old piece's bit is
+    cleared from its piece set and colour set, the new piece's bit is set.  When both pieces have the same colour (a
+    take-back that first puts the promoted piece and then the pawn on the from-square) the two halves touch the same
+    colour set, so the clear must come first: no path leads from a statement that sets a bit of a set to one that clears a
+    bit of the same set inside one call."""
+    clause = 'C02.15'
+    n = 0
+    for nm in ('setPiece', 'setPieceB'):
+        f = fb.find1(P + '::' + nm)
+        if rep.need(clause, f, P + '::' + nm) is None:
+            continue
+        sets_, clears_ = {}, {}
+        for b, i, e in f.events():
+            if e.get('k') == 'asg' and e.get('op') in ('|=', '&='):
+                key = ap(e.get('l')) or show(e.get('l'), 40)
+                key = key.split('[')[0]
+                (sets_ if e['op'] == '|=' else clears_).setdefault(key, []).append((b, i, e))
+        for key in sorted(set(sets_) & set(clears_)):
+            n += 1
+            late = [(sb, si) for sb, si, se in sets_[key] for cb, ci, ce in clears_[key] if f.path_avoiding((sb, si), lambda x, _c=ce: x is _c, lambda x: False) is not None]
+            rep.ob(clause, 'K2 must-precede', '%s: the old piece is removed from %s before the new piece is added' % (nm, key.replace('this.', '')), not late, f.where,
+                   '%d set / %d clear statement(s)' % (len(sets_[key]), len(clears_[key])), f.sname)
+    rep.floor(clause, 'piece / colour sets updated by the square setters', n, 4)
